@@ -53,7 +53,7 @@ def abstract_packages(draw, max_models=8, max_ap=5, min_wav=3, max_wav=12, apdep
             'cube_dtype': draw(st.sampled_from(['f8', 'f8', 'f4'])),
             # unit the SED files / the cube are STORED in (the abstract fluxes are always mJy)
             'sed_unit': draw(st.sampled_from(['mJy', 'mJy', 'Jy', 'erg cm-2 s-1', 'ergs/cm^2/s'])),
-            'cube_unit': draw(st.sampled_from(['mJy', 'mJy', 'Jy'])),
+            'cube_unit': draw(st.sampled_from(['mJy', 'mJy', 'Jy', 'cgs'])),
             'sed_err_unit': draw(st.sampled_from(['same', 'same', 'mJy', 'Jy'])),
             'cube_unc_unit': draw(st.sampled_from(['same', 'same', 'mJy', 'Jy'])),
             # the aperture axis may be STORED in any order (files and cube alike); the abstract description stays ascending
@@ -96,6 +96,11 @@ def with_model_grids(draw, pkg):
     if any(b is not None for b in by_model):
         pkg['wav_by_model'] = by_model
     return pkg
+
+
+# units a cube may be stored in: factor from mJy, unit string of the file ('cgs' = erg/s/cm^2/Hz, as radiative-transfer codes
+# write it: 1 mJy = 1e-26 of it)
+CUBE_UNITS = {'mJy': (1., 'mJy'), 'Jy': (1e-3, 'Jy'), 'cgs': (1e-26, 'erg / (cm2 s Hz)')}
 
 
 @st.composite
@@ -207,11 +212,11 @@ def emit(pkg, model_dir, fmt, file_stems=None):
                                  wav_unit='MICRONS' if legacy else 'um', nu_unit='HZ' if legacy else 'Hz')
         pkgio.write_parameters(model_dir, names, pkg['params'], order=pkg['perm'], gz=bool(pkg.get('par_gz')))
     else:
-        cfac = 1e-3 if pkg.get('cube_unit', 'mJy') == 'Jy' else 1.
+        cfac = CUBE_UNITS[pkg.get('cube_unit', 'mJy')][0]
         uunit = pkg.get('cube_unc_unit', 'same')
         if uunit == 'same':
             uunit = pkg.get('cube_unit', 'mJy')
-        ufac = 1e-3 if uunit == 'Jy' else 1.
+        ufac = CUBE_UNITS[uunit][0]
         val = [[[pkg['flux'][m][a][i] * cfac for i in idx] for a in aidx] for m in range(n)]
         unc = [[[pkg['err'][m][a][i] * ufac for i in idx] for a in aidx] for m in range(n)]
         import numpy as np
@@ -219,7 +224,7 @@ def emit(pkg, model_dir, fmt, file_stems=None):
         cube_aps = None if stored_aps is None else [a * gen.AP_UNIT_FACTOR[apu] for a in stored_aps]
         pkgio.write_cube(os.path.join(model_dir, 'flux.fits'), names, swav, cube_aps, val, unc,
                          dtype=np.float64 if pkg['cube_dtype'] == 'f8' else np.float32,
-                         val_unit=pkg.get('cube_unit', 'mJy'), unc_unit=uunit, ap_unit=apu)
+                         val_unit=CUBE_UNITS[pkg.get('cube_unit', 'mJy')][1], unc_unit=CUBE_UNITS[uunit][1], ap_unit=apu)
         pkgio.write_parameters(model_dir, names, pkg['params'], gz=bool(pkg.get('par_gz')))   # cube format: same order as the cube
 
 
